@@ -3,6 +3,7 @@ import UF.Compose2.ParsePattern
 import UF.Compose2.RegexShortcutSound
 import UF.Props.C05
 import UF.Props.C03
+import UF.Model.RequestNew
 /-
   C05 for mask rules, HYPOTHESIS-FREE (integration group I2).
 
@@ -302,5 +303,47 @@ example : itemsReq (mergeItems [.lit (lit "a") false, .lit (lit "b") false, .oth
 example : altTopReq [[.lit (lit "foo") false], [.lit (lit "barbaz") false]] = [] := by decide
 example : altTopReq [[.lit (lit "foo") false], [.lit (lit "foobar") false]] = [lit "foo"] := by decide
 example : altTopReq [[.lit (lit "A") false], [.lit (lit "a") false]] = [lit "a"] := by decide
+
+/-! ### The hypothesis `hlower` cannot be dropped for hostname requests (review TOP 3)
+
+  `NewRequest` lower-cases the URL itself (C17 `lower_capped`), so `hlower : q.urlLower = toLower q.url`
+  is a theorem for URL requests.  `FillRequestForHostname` does NOT: it stores
+  `URLLowerCase = "http://" + hostname` unchanged (rules/request.go), and `DNSEngine.MatchRequest`
+  probes its tables with the raw name.  For the hostname `EXAMPLE.org` and the rule `||example.org^`
+  the compiled pattern (`(?i)`) accepts the target, but the shortcut test `strings.Contains(URLLowerCase,
+  "example.org")` rejects -- so "the result is the same with the shortcut test removed" FAILS on that
+  request, and the statements above hold for hostname requests only under the contract of DESIGN.md §6:
+  hostnames given to `NewRequestForHostname` / `DNSRequest` are lower-case (the function documents that
+  validation is the caller's job; DNS names are case-insensitive).  Mixed-case hostnames are therefore
+  outside the domain of C02/C05/C17; no generator produces them as inputs of compared ops and the
+  driver answers `ood` where an op can receive one. -/
+
+private def lcExt : Ext :=
+  { psl := fun _ => (lit "org", true), parseAddr := fun _ => none, parsePrefix := fun _ => none,
+    pat := fun _ _ _ => false }
+
+/-- The explicit dependency on lower-case hostnames: on the request `FillRequestForHostname` builds
+    for `EXAMPLE.org`, the rule `||example.org^` (complete parser model, shortcut `example.org`) has
+    `urlLower ≠ toLower url`, its pattern ACCEPTS, its shortcut test REJECTS, and `Match` differs from
+    `Match` without the shortcut. -/
+theorem c05_hostname_lowercase_needed :
+    (match parseNetRuleM lcExt (lit "||example.org^") 1,
+           H.newRequestForHostname lcExt (lit "EXAMPLE.org") with
+     | .ok r, .ok q =>
+       r.shortcut == lit "example.org" && q.isHostnameRequest && q.url == lit "http://EXAMPLE.org" &&
+       q.urlLower != toLower q.url &&
+       matchPattern (withModelPat lcExt) r q && !matchShortcut r q &&
+       !r.matches (withModelPat lcExt) q &&
+       ({ r with shortcut := [] } : NetRule).matches (withModelPat lcExt) q
+     | _, _ => false) = true := by decide +kernel
+
+/-- With the lower-case name the hypothesis holds and the two agree. -/
+example :
+    (match parseNetRuleM lcExt (lit "||example.org^") 1,
+           H.newRequestForHostname lcExt (lit "example.org") with
+     | .ok r, .ok q =>
+       q.urlLower == toLower q.url && r.matches (withModelPat lcExt) q &&
+       ({ r with shortcut := [] } : NetRule).matches (withModelPat lcExt) q
+     | _, _ => false) = true := by decide +kernel
 
 end UF.C05
